@@ -125,11 +125,13 @@ def parseRoots : Nat → List String → Option (List (Node × Faults))
     | _, _, _ => none
   | _, _ => none
 
+def bytes (s : String) : List Nat := s.toUTF8.toList.map (·.toNat)
+
 def naming : Naming where
-  pkgName i := "n" ++ toString (i / 3)
-  pkgVersion i := "v" ++ toString (i % 3)
-  extName e := "e" ++ toString e
-  locStr p := "[" ++ (if p.isEmpty then "." else "/".intercalate p) ++ "]"
+  pkgName i := bytes ("n" ++ toString (i / 3))
+  pkgVersion i := bytes ("v" ++ toString (i % 3))
+  extName e := bytes ("e" ++ toString e)
+  locStr p := bytes ("[" ++ (if p.isEmpty then "." else "/".intercalate p) ++ "]")
 
 def showErr : Err → String
   | .none => "none" | .maxInodes => "maxinodes" | .ctx => "ctx" | .fs => "fs" | .panic => "panic"
@@ -168,10 +170,10 @@ def handle (line : String) : String :=
         let hyp := c.maxInodes = 0 && !c.errorOnFSErrors && !c.cancelBefore && c.cancelAt.isNone &&
           ext.all (fun x => !x.2.panics)
         let spec := mustExtract c roots
-        s!"err={showErr r.err} vis={r.visited} calls={joinWith ";" (r.calls.map showCall)} " ++
+        s!"err={showErr r.err} vis={r.visited} calls={joinWith ";" ((r.calls.filter (·.opened)).map showCall)} " ++
         s!"pkgs={joinWith ";" (o.pkgs.map fun p => s!"{p.id}@{p.ext}@{showPath p.loc}")} " ++
         s!"st={joinWith "," (o.statuses.map fun (e, st) => s!"{e}={showStatus st}")} " ++
-        s!"hyp={boolStr hyp} spec={joinWith ";" (spec.map showCall)}"
+        s!"hyp={boolStr hyp} spec={joinWith ";" ((spec.filter (·.opened)).map showCall)}"
       | none => "bad-op"
     | _, _, _, _, _, _, _ => "bad-op"
   | _ => "bad-op"
